@@ -109,7 +109,7 @@ func importSTL(path string) (r result) {
 }
 
 // run one file through both entry points with a watchdog; key prefix identifies the alphabet part.
-func (w *worker) one(c *vlib.Ctx, path string, content []byte, desc map[string]any, class string, measure bool) {
+func (w *worker) one(c *vlib.Ctx, path string, content []byte, desc map[string]any, class string, measure bool) (r result) {
 	if err := os.WriteFile(path, content, 0o644); err != nil {
 		c.HarnessError("cannot write scratch file: %v", err)
 		return
@@ -125,7 +125,6 @@ func (w *worker) one(c *vlib.Ctx, path string, content []byte, desc map[string]a
 	done := make(chan result, 1)
 	t0 := time.Now()
 	go func() { done <- load(path) }()
-	var r result
 	select {
 	case r = <-done:
 	case <-time.After(60 * time.Second):
@@ -162,6 +161,7 @@ func (w *worker) one(c *vlib.Ctx, path string, content []byte, desc map[string]a
 	if !r.panicked {
 		r2 := importSTL(path)
 		if r2.panicked {
+			r.panicked = true
 			// obj.ImportSTL is the second entry point of the loader: it must return an error or a shape too
 			where := "in the loader"
 			if !strings.HasPrefix(r2.site, "render.") {
@@ -170,6 +170,7 @@ func (w *worker) one(c *vlib.Ctx, path string, content []byte, desc map[string]a
 			c.Violation("ImportSTL|panic|"+r2.site+"|"+r2.msg, fmt.Sprintf("obj.ImportSTL panicked %s (%s in %s)", where, r2.msg, r2.site), desc)
 		}
 	}
+	return r
 }
 
 type worker struct {
@@ -337,6 +338,55 @@ func workerMain() {
 	w.one(c, filepath.Join(work, "bin.stl"), long2, map[string]any{"kind": "30000-vertex-lines"}, "many-lines", true)
 	states += 2
 
+	// ---- (e) line endings: a well-formed ASCII file of 120 facets with LF, CR LF and LF CR LF mixed endings, shifted
+	// by 0..255 leading blanks so that every alignment of a line end against the reader's refill boundaries
+	// (4096, 8192, ...) occurs; files cut right after a carriage return; the loader must return, and return the same
+	// triangles whatever the line ending
+	mkAsc := func(nf int, eol func(line int) string, lead int) string {
+		var sb strings.Builder
+		sb.WriteString(strings.Repeat(" ", lead))
+		ln := 0
+		put := func(t string) { sb.WriteString(t); sb.WriteString(eol(ln)); ln++ }
+		put("solid t")
+		for i := 0; i < nf; i++ {
+			put(" facet normal 0 0 1")
+			put("  outer loop")
+			put(fmt.Sprintf("   vertex %d 0 0", i))
+			put("   vertex 1 0 0")
+			put("   vertex 0 1e0 0")
+			put("  endloop")
+			put(" endfacet")
+		}
+		put("endsolid t")
+		return sb.String()
+	}
+	eols := map[string]func(int) string{
+		"LF":    func(int) string { return "\n" },
+		"CRLF":  func(int) string { return "\r\n" },
+		"mixed": func(l int) string { return []string{"\n", "\r\n", "\r\r\n"}[l%3] },
+	}
+	for _, name := range []string{"LF", "CRLF", "mixed"} {
+		for lead := 0; lead < vlib.Pick(c, 256, 1024); lead++ {
+			content := mkAsc(120, eols[name], lead)
+			desc := map[string]any{"kind": "well-formed-ascii-120-facets", "line_endings": name, "leading_blanks": lead}
+			r := w.one(c, filepath.Join(work, "bin.stl"), []byte(content), desc, "line-endings|"+name, true)
+			states++
+			trans += 2
+			if !r.panicked && (r.err != nil || r.n != 120) {
+				c.Violation("LoadSTL|well-formed-ascii-file-not-loaded|line-endings="+name, fmt.Sprintf("120 facets with %s line endings after %d leading blanks: %d triangles, error %v", name, lead, r.n, r.err), desc)
+			}
+		}
+	}
+	crlf := mkAsc(3, eols["CRLF"], 0)
+	for n := 0; n <= len(crlf); n++ {
+		if n > 0 && crlf[n-1] != '\r' {
+			continue
+		}
+		w.one(c, filepath.Join(work, "bin.stl"), []byte(crlf[:n]), map[string]any{"kind": "crlf-ascii-cut-after-carriage-return", "keep_bytes": n}, "truncated-ascii-crlf", true)
+		states++
+		trans += 2
+	}
+
 	// ---- (a) ASCII: all sequences of <= k alphabet lines (padded), and unpadded for <= 3
 	k := vlib.Pick(c, 5, 7)
 	total := 0
@@ -387,6 +437,14 @@ func workerMain() {
 				body := sb.String()[len(pad):]
 				w.one(c, path, []byte(body), map[string]any{"kind": "ascii-lines", "lines": seqStrings(seq), "padded": false}, class+"|short", false)
 				local++
+				// the same lines ending in CR LF, and with a bare CR as the very last byte
+				cr := strings.ReplaceAll(sb.String(), "\n", "\r\n")
+				w.one(c, path, []byte(cr), map[string]any{"kind": "ascii-lines", "lines": seqStrings(seq), "padded": true, "line_endings": "CRLF"}, class+"|crlf", false)
+				w.one(c, path, []byte(strings.TrimSuffix(cr, "\n")), map[string]any{"kind": "ascii-lines", "lines": seqStrings(seq), "padded": true, "line_endings": "CRLF, last LF missing"}, class+"|crlf-cut", false)
+				// blanks replaced by tabs; a NUL and a 0xFF byte at the end of every line
+				w.one(c, path, []byte(strings.ReplaceAll(sb.String()[len(pad):], " ", "\t")+pad), map[string]any{"kind": "ascii-lines", "lines": seqStrings(seq), "padded": "after the lines", "separators": "tabs"}, class+"|tabs", false)
+				w.one(c, path, []byte(strings.ReplaceAll(sb.String(), "\n", "\x00\xff\n")), map[string]any{"kind": "ascii-lines", "lines": seqStrings(seq), "padded": true, "line_suffix": "NUL 0xFF"}, class+"|nul", false)
+				local += 4
 			}
 		}
 		atomic.AddInt64(&ascFiles, local)
